@@ -233,9 +233,34 @@ def oracle(env, ev):
                if r['h'] is not None and not r['discarded'] and
                not (r['h']._ready if r['kind'].startswith('imap')
                     else r['h'].ready())]
-        if len(out) > pl._initial_value:
-            return ('%d jobs in flight with %d slots and no worker exit'
-                    % (len(out), pl._initial_value))
+        held = [j for j in out if env.jobs[j]['kind'] == 'apply']
+        if len(held) > pl._initial_value:
+            return ('%d apply_async jobs in flight with %d slots and no '
+                    'worker exit' % (len(held), pl._initial_value))
+        # conservation: while nobody exited and the size was not changed,
+        # free slots + slots held by unresolved apply_async jobs = bound
+        # (a failed send or a time limit resolve a job without giving its
+        # slot back before the worker is replaced: F12 / F14, judged at
+        # quiescence by final())
+        quiet = not env.grown and not any(
+            e[0] in ('shrink', 'grow') for e in env.log) and not any(
+            r.get('timed_out_at') is not None or r['t'].get('unsendable') or
+            any(p.get('state') == 'putfail' for p in r['parts'].values())
+            for r in env.jobs)
+        if quiet and pl._value + len(held) != pl._initial_value:
+            sig = None
+            if pl._value + len(held) > pl._initial_value and any(
+                    r['kind'] != 'apply' and any(
+                        p.get('state') == 'done' for p in r['parts'].values())
+                    for r in env.jobs):
+                # map()/imap() never take a slot, but every result of one
+                # of their parts gives one back
+                sig = 'F34:map-part-result-releases-a-slot-never-taken'
+            return ('%d of %d slots free while %d apply_async jobs are '
+                    'unresolved and no worker has exited (jobs %r)' % (
+                        pl._value, pl._initial_value, len(held),
+                        [(r['kind'], env.outcome(r)[0]) for r in env.jobs]),
+                    sig)
     return None
 
 
@@ -295,9 +320,14 @@ def configs(tier):
              dict(die=(), put_faults=(), max_adv=1, grow=1, shrink=True,
                   close=True)),
             ('failed-sends', 2, [apt, apu, ap], base,
-             dict(die=(), put_faults=('exc',), max_adv=1))):
+             dict(die=(), put_faults=('exc',), max_adv=1)),
+            ('apply+map', 2, [ap, dict(kind='map', fn='tenfold', items=[1],
+                                       chunksize=1), ap, ap], base,
+             dict(die=(), put_faults=(), max_adv=0, scan=False,
+                  depth=d + 2))):
         out.append(dict(name=name, procs=procs, jobs=jobs, pool=pk,
-                        alphabet=alpha, depth=d, max_states=ms,
+                        alphabet=alpha, depth=alpha.pop('depth', d),
+                        max_states=ms,
                         final='harness.c10:final',
                         oracle='harness.c10:oracle'))
     return out
